@@ -32,6 +32,9 @@ PROPS["C15"] = dict(
          "message lengths, half of them through files::Handler. Real files in a fresh per-case directory, names from "
          "filename::Creator/Builder with a generation number and no date part. Non-trivial = history with at least one roll and at "
          "least one reopen that follows a write into the current file; distinct by hash of the serialised case (config + history).",
+    # real file-system work: ~8k cases/s on a quiet box with the scratch directory on disk (6x that on tmpfs), but the
+    # journal is shared with everything else that runs; the cap is only the safety net of DESIGN 2.3(5)
+    wall_cap=dict(quick=900, thorough=7200),
     require_classes=dict(all=["policy.counted", "policy.maxsize", "via.policy", "via.handler", "gens.1", "write.append", "write.roll",
                               "write.boundary_exact", "reopen.nonempty", "reopen.empty", "reopen.roll", "roll.dropped_oldest"]),
     assumptions=[
